@@ -19,6 +19,8 @@ func init() {
 		ruleS3(c, "C05.F5")
 		ruleF6(c, "C05.F6")
 		ruleF8(c, "C05.F8")
+		ruleRefused(c, "C05.F9")
+		ruleF10(c, "C05.F10")
 		ruleW1(c, "C05.F7")
 		ruleR3(c, "C05.R3")
 		ruleR6(c, "C05.R6")
@@ -103,17 +105,27 @@ func ruleF2(c *Ctx, id string) {
 			if !IsRepoFunc(cs.Caller) {
 				continue
 			}
-			R.Check(cs.Caller == pr.owner, id, FuncName(cs.Caller)+"|calls "+pr.callee.Name(), P.Pos(cs.Instr.Pos()), pr.callee.Name()+" is called only from "+FuncName(pr.owner), "owner", "allocator state updated outside the commit/abort epilogue")
+			okCaller := cs.Caller == pr.owner
+			if !okCaller && pr.callee == V.PostAbort && cs.Caller == V.commitWait {
+				// the undo of a commit the journal refused: only on the false side of jrnl.CommitWait
+				for _, jc := range P.CallsIn(V.commitWait, funcIs(V.JrnlCommitWait)) {
+					if cv, isC := jc.(*ssa.Call); isC && everyPathTakes(V.commitWait, cs.Instr.Block(), boolEdge(V.commitWait, cv, false)) {
+						okCaller = true
+					}
+				}
+			}
+			R.Check(okCaller, id, FuncName(cs.Caller)+"|calls "+pr.callee.Name(), P.Pos(cs.Instr.Pos()), pr.callee.Name()+" is called only from "+FuncName(pr.owner)+" (PostAbort also on the refused-commit side of the funnel)", "owner", "allocator state updated outside the commit/abort epilogue")
 		}
 		entry := pr.owner.Blocks[0].Instrs[0]
 		R.Check(MustAfter(pr.owner, callTo(pr.callee), nil)(entry), id, FuncName(pr.owner)+"|always "+pr.callee.Name(), P.Pos(pr.owner.Pos()), "every path of "+FuncName(pr.owner)+" calls "+pr.callee.Name(), "must-follow from entry", "a path skips the allocator epilogue: freed numbers are never reusable / aborted allocations are never returned")
 	}
-	post := P.NewAlways(callTo(V.postCommit))
+	// ... or, on the side where the journal refused the commit, the abort epilogue (which side is which: C09.A8)
+	post := P.NewAlways(func(in ssa.Instruction) bool { return callTo(V.postCommit)(in) || callTo(V.PostAbort)(in) })
 	for _, f := range []*ssa.Function{V.Commit, V.CommitData, V.CommitUnstable, V.CommitFh} {
 		if f == nil {
 			continue
 		}
-		R.Check(post.Func(f), id, FuncName(f)+"|reaches postCommit", P.Pos(f.Pos()), "every path of the terminator runs postCommit (release + PostCommit)", "always-performs summary", "a commit path never publishes its frees")
+		R.Check(post.Func(f), id, FuncName(f)+"|reaches postCommit", P.Pos(f.Pos()), "every path of the terminator runs an allocator epilogue: postCommit (release + PostCommit) or, for a refused commit, PostAbort", "always-performs summary", "a commit path neither publishes its frees nor returns its allocations")
 	}
 	// Abort must not make writes visible
 	if V.Abort != nil {
@@ -249,4 +261,149 @@ func ruleF8(c *Ctx, id string) {
 			}
 		}
 	}
+}
+
+// ruleF10: an index block is linked only together with a data block.  When
+// the mapping of a logical block fails for lack of space after index blocks
+// were allocated for it, those index blocks lie beyond the file's size; Shrink
+// frees by size, so nothing would ever free them.
+func ruleF10(c *Ctx, id string) {
+	V, P, R := c.V, c.P, c.R
+	R.Rule(id, "no index block without a data block: in indbmap the sub-root returned by the recursive call is linked (BnumPut) only when a block was mapped; when none was, a sub-root and a root allocated in this call are freed and the caller gets back the root it passed in", 4)
+	ind := c.fn(id, "inode.(*Inode).indbmap")
+	if ind == nil || V.FreeBlock == nil {
+		return
+	}
+	R.Analysed[FuncName(ind)] = true
+	rootParam := ssa.Value(ind.Params[2])
+	var rc *ssa.Call
+	for _, call := range P.CallsIn(ind, funcIs(ind)) {
+		rc = call.(*ssa.Call)
+	}
+	if rc == nil {
+		R.Undecided(id, "inode.indbmap|recursive mapping", P.Pos(ind.Pos()), "indbmap maps the next level by calling itself", "no recursive call found")
+		return
+	}
+	var blkno, sub ssa.Value
+	for _, in := range refs(rc) {
+		if ex, ok := in.(*ssa.Extract); ok {
+			if ex.Index == 0 {
+				blkno = ex
+			} else if ex.Index == 1 {
+				sub = ex
+			}
+		}
+	}
+	if blkno == nil || sub == nil {
+		R.Undecided(id, "inode.indbmap|recursive mapping", P.Pos(rc.Pos()), "both results of the recursive call are used", "a result is dropped")
+		return
+	}
+	mapped := func(from, to *ssa.BasicBlock) bool { // the edge on which a block was mapped: blkno != 0
+		z := cmpZeroEdge(ind, map[ssa.Value]bool{blkno: true})
+		last, ok := from.Instrs[len(from.Instrs)-1].(*ssa.If)
+		if !ok {
+			return false
+		}
+		bo, ok := last.Cond.(*ssa.BinOp)
+		if !ok || (bo.Op != token.EQL && bo.Op != token.NEQ) {
+			return false
+		}
+		if stripConv(bo.X) != blkno && stripConv(bo.Y) != blkno {
+			return false
+		}
+		k, isk := constInt(bo.Y)
+		if !isk {
+			k, isk = constInt(bo.X)
+		}
+		if !isk || k != 0 {
+			return false
+		}
+		// the other successor of the zero edge
+		for _, s := range from.Succs {
+			if s != to && z(from, s) {
+				return true
+			}
+		}
+		return false
+	}
+	// A: linking only when mapped
+	nPut := 0
+	for _, b := range ind.Blocks {
+		for _, in := range b.Instrs {
+			if cal := staticCallee(in); cal != nil && cal.Name() == "BnumPut" && stripConv(argN(in, 1)) == sub {
+				nPut++
+				R.Check(everyPathTakes(ind, b, mapped), id, "inode.indbmap|sub-root linked only with a mapped block", P.Pos(in.Pos()), "BnumPut of the sub-root returned by the recursive call is reached only on the edge where that call mapped a block", "edge cut on blkno != 0", "an index block allocated for a mapping that then fails for lack of space is linked into the tree beyond the file's size: truncation and removal never free it")
+			}
+		}
+	}
+	if nPut == 0 {
+		R.Fail(id, "inode.indbmap|links the sub-root", P.Pos(ind.Pos()), "indbmap links a newly allocated sub-root", "no BnumPut of the recursive call's root")
+	}
+	// B, C: what was allocated for a failed mapping is freed
+	isFree := func(v ssa.Value) func(ssa.Instruction) bool {
+		return func(in ssa.Instruction) bool {
+			return callTo(V.FreeBlock)(in) && stripConv(argN(in, 0)) == stripConv(v)
+		}
+	}
+	same := func(a, b ssa.Value) func(from, to *ssa.BasicBlock) bool {
+		return condEdge(ind, func(cd Cond) (bool, bool) {
+			if cd.X == nil || cd.Y == nil {
+				return false, false
+			}
+			x, y := stripConv(cd.X), stripConv(cd.Y)
+			if !((x == stripConv(a) && y == stripConv(b)) || (x == stripConv(b) && y == stripConv(a))) {
+				return false, false
+			}
+			switch cd.Op {
+			case token.EQL:
+				return true, true
+			case token.NEQ:
+				return true, false
+			}
+			return false, false
+		})
+	}
+	or := func(fs ...func(from, to *ssa.BasicBlock) bool) func(from, to *ssa.BasicBlock) bool {
+		return func(from, to *ssa.BasicBlock) bool {
+			for _, f := range fs {
+				if f(from, to) {
+					return true
+				}
+			}
+			return false
+		}
+	}
+	// the sub-root passed down: first value argument of the recursive call after the receiver/atxn
+	passed := rc.Call.Args[2]
+	okB := MustAfterE(ind, isFree(sub), nil, or(mapped, same(sub, passed)))(rc)
+	R.Check(okB, id, "inode.indbmap|unused sub-root freed", P.Pos(rc.Pos()), "when the recursive call mapped no block but returned a sub-root other than the one passed down, that sub-root is freed", "must-follow except on the mapped / unchanged edges", "a sub-root allocated for nothing stays allocated")
+	// own root: phi of the parameter and an AllocBlock result
+	var own ssa.Value
+	for _, call := range P.CallsIn(ind, funcIs(V.AllocBlock)) {
+		for _, r := range refs(call.(*ssa.Call)) {
+			if phi, ok := r.(*ssa.Phi); ok {
+				own = phi
+			}
+		}
+	}
+	if own != nil {
+		okC := MustAfterE(ind, isFree(own), nil, or(mapped, same(own, rootParam)))(rc)
+		R.Check(okC, id, "inode.indbmap|unused root freed", P.Pos(rc.Pos()), "when no block was mapped and the root was allocated in this call, it is freed", "must-follow except on the mapped / root-unchanged edges", "a root allocated for nothing stays allocated")
+	}
+	// E: on failure the caller is told the root it passed in
+	okE, nE := true, 0
+	for _, b := range ind.Blocks {
+		r, isR := b.Instrs[len(b.Instrs)-1].(*ssa.Return)
+		if !isR || len(r.Results) != 2 || !rc.Block().Dominates(b) {
+			continue
+		}
+		if everyPathTakes(ind, b, mapped) {
+			continue // success side
+		}
+		nE++
+		if stripConv(r.Results[1]) != rootParam {
+			okE = false
+		}
+	}
+	R.Check(okE && nE > 0, id, "inode.indbmap|failure returns the caller's root", P.Pos(ind.Pos()), "every return after the recursive call that can be reached without a mapped block returns the root parameter unchanged", fmt.Sprintf("%d failure returns", nE), "the caller (bmap) stores the useless root into the inode")
 }
